@@ -45,7 +45,7 @@ func (c20) Components() map[string]string {
 }
 func (c20) Budget(tier string) int {
 	if tier == "thorough" {
-		return 600000
+		return 3000000
 	}
 	return 12000
 }
@@ -706,6 +706,11 @@ func (p c20) Run(sc *Scenario) *Result {
 		x.afterOp()
 		if x.fatal() {
 			break
+		}
+	}
+	if !x.fatal() {
+		for _, m := range x.vars {
+			res.Mix(string(detEnc(m)))
 		}
 	}
 	if (x.accepted > 0 && x.rejected > 0) || frozenEver {
